@@ -379,6 +379,9 @@ class SymReal(object):
         return _decide(self.z3() != 0)
 
     def __repr__(self):
+        if self.size > 40:
+            # printing a large z3 term is slow, and the real code formats values into debug messages
+            return "SymReal(<%d operations>)" % self.size
         return "SymReal(%s%s)" % (str(self.e)[:80], "" if self.den is None else " / " + str(self.den)[:40])
 
 
